@@ -31,7 +31,8 @@ EXPLANATION = (
     "identity)."
     ' Also: a message is rejected only for values read from its own bytes, fields are delivered as read (R4); blob decoders accept whatever the encoders write (R3).'
 )
-SHARED = [('C04', ['R3'], 'encoding then decoding is the identity: the encoder writes the message as given (timestamp 0 included)')]
+SHARED = [('C04', ['R3'], 'encoding then decoding is the identity: the encoder writes the message as given (timestamp 0 included)'),
+          ('C12', ['R3'], 'every entry that is completely there is decoded: the set iterator stops only at the end of the data or on an underflow')]
 ASSUMPTIONS = ["Kafka protocol guide layouts as transcribed in afkverif/kafka_schema.py", "gzip round-trips bytes exactly"]
 
 
